@@ -88,9 +88,9 @@ type Walker struct {
 	cells     []*Cell
 	freshN    map[string]int
 	symCells  map[string]*Cell
-	symIdx    map[string]*Term // symbolic index selectors ("#b") -> the index term
+	symIdx    map[string]*Term      // symbolic index selectors ("#b") -> the index term
 	RTypes    map[string]types.Type // renderings of type descriptors met as table keys -> the Go type
-	InitPkg   *ssa.Package     // set while evaluating a package initialiser: its variables are concrete cells
+	InitPkg   *ssa.Package          // set while evaluating a package initialiser: its variables are concrete cells
 	defers    [][]deferred
 	aborted   string
 	abortKind string
